@@ -13,20 +13,21 @@ import (
 // (`return ..., nil`). Cleanup calls whose failure cannot change the outcome
 // are exempt by name, one line of reason each.
 var errExempt = map[string]string{
-	"(*os.File).Close":                      "closing a read handle / already-synced temp file: failure does not change what was read or published",
-	"os.Remove":                             "best-effort cleanup",
-	"os.RemoveAll":                          "handled by rule R06c where it matters",
-	"(io.Closer).Close":                     "closing a reader",
-	"(io.ReadCloser).Close":                 "closing a reader",
-	"(*io.PipeWriter).Close":                "pipe close never fails",
-	"(*io.PipeReader).Close":                "pipe close never fails",
-	"(*io.PipeWriter).CloseWithError":       "pipe close never fails",
-	"(*grog/internal/maps.MutexMap).Unlock": "unlock of a held lock",
-	"fmt.Println":                           "console output",
-	"fmt.Printf":                            "console output",
-	"fmt.Print":                             "console output",
-	"fmt.Fprintf":                           "console output",
-	"fmt.Fprintln":                          "console output",
+	"(*os.File).Close":                          "closing a read handle / already-synced temp file: failure does not change what was read or published",
+	"os.Remove":                                 "best-effort cleanup",
+	"os.RemoveAll":                              "handled by rule R06c where it matters",
+	"(io.Closer).Close":                         "closing a reader",
+	"(io.ReadCloser).Close":                     "closing a reader",
+	"(*io.PipeWriter).Close":                    "pipe close never fails",
+	"(*io.PipeReader).Close":                    "pipe close never fails",
+	"(*io.PipeWriter).CloseWithError":           "pipe close never fails",
+	"(*grog/internal/maps.MutexMap).Unlock":     "unlock of a held lock",
+	"(*grog/internal/caching.TaintCache).Clear": "a failed removal leaves the taint in place: the target is executed again by the next build (the safe direction); the error is logged",
+	"fmt.Println":                               "console output",
+	"fmt.Printf":                                "console output",
+	"fmt.Print":                                 "console output",
+	"fmt.Fprintf":                               "console output",
+	"fmt.Fprintln":                              "console output",
 }
 
 // probeExempt: calls whose error is *information* (a probe of local state); on
